@@ -95,7 +95,7 @@ fn letter_bytes(w: &World, letter: &str, rng: &mut Rng) -> Vec<u8> {
 }
 
 #[derive(Debug, PartialEq)]
-enum End {
+pub enum End {
     Ok,
     Err(String),
     Panicked(String),
@@ -315,7 +315,7 @@ async fn play(remote: DuplexStream, w: &World, seq: &[usize], rng: &mut Rng, wai
 // real <-> real sessions with a fault injected before message k
 
 #[derive(Clone, Copy, Debug, PartialEq)]
-enum Fault {
+pub enum Fault {
     None,
     CloseReplica,
     SyncOff,
@@ -332,14 +332,14 @@ fn run_faults(ctx: &mut Ctx) {
     }
 }
 
-struct SessionEnds {
-    alice: End,
-    bob: End,
-    counts: Option<((usize, usize), (usize, usize))>,
-    frames_forwarded: usize,
+pub struct SessionEnds {
+    pub alice: End,
+    pub bob: End,
+    pub counts: Option<((usize, usize), (usize, usize))>,
+    pub frames_forwarded: usize,
 }
 
-async fn one_session(ha: &SyncHandle, hb: &SyncHandle, ns: NamespaceId, fault: Fault, at: usize, on_alice: bool) -> SessionEnds {
+pub async fn one_session(ha: &SyncHandle, hb: &SyncHandle, ns: NamespaceId, fault: Fault, at: usize, on_alice: bool) -> SessionEnds {
     let (a_local, a_remote) = tokio::io::duplex(1 << 16);
     let (b_local, b_remote) = tokio::io::duplex(1 << 16);
     let (mut alr, mut alw) = tokio::io::split(a_local);
